@@ -745,17 +745,20 @@ fn agv_sg() -> std::path::PathBuf {
 
 /// one CLI run (project mode, all rules of the project) over many files; returns per file the records
 /// `(rule id, byte start, byte end)`, or an outcome string (`hang`, `exit:<n>`)
-fn run_cli(dir: &std::path::Path, timeout_s: u64) -> Result<HashMap<String, Vec<(String, usize, usize)>>, String> {
+fn run_cli(dir: &std::path::Path, timeout_s: u64, flags: &[String]) -> Result<HashMap<String, Vec<(String, usize, usize)>>, String> {
   let out = std::process::Command::new("timeout")
     .arg(timeout_s.to_string())
     .arg(agv_sg())
     .arg("scan")
     .arg("--json=stream")
+    .args(flags)
     .current_dir(dir)
     .output()
     .map_err(|e| format!("spawn:{e}"))?;
   match out.status.code() {
     Some(0) => {}
+    // findings of severity error (a rule promoted with `--error=ID`) make the scan exit with 1
+    Some(1) if flags.iter().any(|f| f.starts_with("--error")) => {}
     Some(124) => return Err("hang".into()),
     Some(c) => return Err(format!("exit:{c}")),
     None => return Err("signal".into()),
@@ -884,7 +887,15 @@ pub fn suppress_cli(ctx: &Ctx, rng: &mut Rng, o: &mut Out) {
     files.push(("witness.js".to_string(), "// ast-grep-ignore: no-foo\nfoo(1); // ast-grep-ignore: N1\n".to_string()));
     meta.push((0, files.last().unwrap().1.clone()));
     let dir = cli_project(&ls, &active, &files);
-    let res = run_cli(dir.path(), if ctx.thorough { 600 } else { 120 });
+    // the two-rule project is scanned the way a CI job does it: single rules promoted / demoted by id
+    // (`--error=ID --hint=ID`); that changes the severity of their findings and nothing else — every
+    // rule of the project still runs, unused suppressions are still reported
+    let flags: Vec<String> = if active.len() == 2 {
+      vec![format!("--error={}", ls[0].rules[active[0]].0), format!("--hint={}", ls[0].rules[active[1]].0)]
+    } else {
+      vec![]
+    };
+    let res = run_cli(dir.path(), if ctx.thorough { 600 } else { 120 }, &flags);
     let compiled: Vec<Vec<RuleConfig<SupportLang>>> = ls.iter().map(|l| load_rules(l, &active)).collect();
     for (i, (li, src)) in meta.iter().enumerate() {
       let l = &ls[*li];
@@ -896,7 +907,7 @@ pub fn suppress_cli(ctx: &Ctx, rng: &mut Rng, o: &mut Out) {
       };
       o.op(
         opname,
-        json!({"lang": l.name, "src": src, "rules": active, "nodes": a.nodes, "f": a.findings}),
+        json!({"lang": l.name, "src": src, "rules": active, "nodes": a.nodes, "f": a.findings, "flags": flags}),
         r,
       );
     }
@@ -1589,7 +1600,8 @@ pub fn exec(op: &str, a: &Value) -> Option<Value> {
       let dir = cli_project(&[lang_by_name(l.name)?], &active, &[(name.clone(), src.to_string())]);
       let grep = l.lang.ast_grep(src);
       let ab = extract(&grep, &rules);
-      Some(match run_cli(dir.path(), 60) {
+      let flags: Vec<String> = a["flags"].as_array().map(|v| v.iter().filter_map(|x| x.as_str().map(|s| s.to_string())).collect()).unwrap_or_default();
+      Some(match run_cli(dir.path(), 60, &flags) {
         Err(e) => json!(e),
         Ok(per_file) => cli_result(&ab, per_file.get(&name).map(|v| &v[..]).unwrap_or(&[])),
       })
